@@ -1,5 +1,7 @@
 //! Runtime-verification harness for routinator.
 
 pub mod core;
+pub mod hooks;
 pub mod pgen;
+pub mod util;
 pub mod props;
